@@ -938,3 +938,20 @@ pub fn replay_file(props: Vec<Property>, path: &str) -> i32 {
 pub fn boxed<S: Strategy + 'static>(s: S) -> BoxedStrategy<S::Value> {
     s.boxed()
 }
+
+// ---------------------------------------------------------------- trait-level entry points of the library
+// Estimators are reachable both through their inherent `fit` / `predict` / `transform` and through the
+// generic traits of `smartcore::api` (what `cross_validate` and user code written against the traits call).
+// The checks go through the traits in every other case.
+pub fn sup_fit<X, Y, P: Clone, E: smartcore::api::SupervisedEstimator<X, Y, P>>(x: &X, y: &Y, p: P) -> Result<E, smartcore::error::Failed> {
+    E::fit(x, y, p)
+}
+pub fn unsup_fit<X, P: Clone, E: smartcore::api::UnsupervisedEstimator<X, P>>(x: &X, p: P) -> Result<E, smartcore::error::Failed> {
+    E::fit(x, p)
+}
+pub fn tr_predict<X, Y, E: smartcore::api::Predictor<X, Y>>(e: &E, x: &X) -> Result<Y, smartcore::error::Failed> {
+    e.predict(x)
+}
+pub fn tr_transform<X, E: smartcore::api::Transformer<X>>(e: &E, x: &X) -> Result<X, smartcore::error::Failed> {
+    e.transform(x)
+}
